@@ -87,7 +87,9 @@ def run(C, R):
                         # discard of the last receiver: C08.R1/R2 judge that; R2 is about the receive path
                         continue
                     npop += 1
-                    refill = [(k, q) for k, q in enumerate(path.events) if k > i and q['k'] == 'qop'
+                    # (the oldest sender may be taken off the queue before or after the pop - it is one critical
+                    # section; its value goes into the buffer after the pop, which R1 requires anyway)
+                    refill = [(k, q) for k, q in enumerate(path.events) if q['k'] == 'qop'
                               and q['op'] in ('remove_last',) and loc_endswith(q['queue'], 'send_waiters')]
                     if not refill:
                         R.fail('C09.R2', [m['path'], 'pop-without-refill'],
@@ -106,7 +108,7 @@ def run(C, R):
                         x = takes[0]['old']
                         inner = E.project(x, (('dc', 'Some'), '0'))
                         pushed = any(c['k'] == 'call' and c['name'] == 'push' and c['args'][1] in (x, inner)
-                                     for c in path.events[k:])
+                                     for c in path.events[max(k, i):])
                     sc = any(w['k'] == 'write' and w['loc'] == tok + ('data', 'state') and w['val'][0] == 'agg'
                              and w['val'][2] == 'SendComplete' for w in path.events[k:])
                     if takes and pushed and sc:
